@@ -803,7 +803,8 @@ struct tree_sys
         for (tree const &n : fcppt::container::tree::make_pre_order(const_cast<tree const &>(t)))
           want.push_back(&n.value());
         VRT_CHECK(got == want, "tree:map:identity", "map handed the function objects that are not the elements of the source tree");
-        VRT_CHECK(calls == static_cast<int>(want.size()), "tree:map:calls", "map called the function %d times for %zu nodes", calls, want.size());
+        if (calls != static_cast<int>(want.size())) // how often the function is called is not documented: recorded, not judged
+          vrt::count("info:tree:map:calls_differ_from_node_count");
       }
     }
   }
@@ -838,6 +839,76 @@ static int scale_key(int pattern, int i, int n)
   case 2: return (n - i) % 3;       // descending modulo 3
   case 3: return i < n / 2 ? 1 : 0; // two blocks, wrong order
   default: return (i * 7) % 5;      // scattered
+  }
+}
+
+// ---------------------------------------------------------------- every tree shape up to N nodes
+// The BFS reaches trees of at most 5-6 nodes per root inside its node cap.  The observation functions (depth, level,
+// pre_order, to_root, child_position, map, comparison, copy) are pure functions of one tree, so they are also run on
+// EVERY shape with up to 7 (thorough 8) nodes -- parent arrays p[i] < i, children in index order -- with two value
+// assignments (all distinct; many equal, so that position is not recoverable from the value), through the same check().
+static void build_shape(tree &root, Ref &ref, std::vector<int> const &parent, std::vector<int> const &vals)
+{
+  std::vector<tree *> nodes{&root};
+  std::vector<std::vector<int>> path{{}};
+  root.value(vals[0]);
+  ref = Ref{vals[0], {}};
+  for (std::size_t i = 1; i < parent.size(); ++i)
+  {
+    tree *par = nodes[static_cast<std::size_t>(parent[i])];
+    par->push_back(vals[i]);
+    nodes.push_back(&par->back().get_unsafe().get());
+    Ref *rp = &ref;
+    for (int ix : path[static_cast<std::size_t>(parent[i])])
+      rp = &rp->c[static_cast<std::size_t>(ix)];
+    rp->c.push_back(Ref{vals[i], {}});
+    std::vector<int> pth = path[static_cast<std::size_t>(parent[i])];
+    pth.push_back(static_cast<int>(rp->c.size()) - 1);
+    path.push_back(pth);
+  }
+}
+static void tree_all_shapes(int max_nodes)
+{
+  for (int k = 1; k <= max_nodes; ++k)
+  {
+    std::vector<int> parent(static_cast<std::size_t>(k), 0);
+    parent[0] = -1;
+    std::function<void(int)> rec = [&](int i) {
+      if (i == k)
+      {
+        for (int pattern = 0; pattern < 2; ++pattern)
+        {
+          std::string text = "shape";
+          for (int q = 0; q < k; ++q)
+            text += " " + std::to_string(parent[static_cast<std::size_t>(q)]);
+          text += pattern == 0 ? " values distinct" : " values i%2";
+          if (!vrt::begin_text("tree_all_shapes", text))
+            continue;
+          vrt::nontrivial(k >= 6);
+          vrt::maybe_sample();
+          std::vector<int> vals;
+          for (int q = 0; q < k; ++q)
+            vals.push_back(pattern == 0 ? q : q % 2);
+          tree_sys w;
+          build_shape(*w.roots[0], w.m[0], parent, vals);
+          // the second root: the same shape with the children order of the root reversed in value (for comparison pairs)
+          build_shape(*w.roots[1], w.m[1], parent, vals);
+          if (k >= 2)
+          {
+            w.roots[1]->back().get_unsafe().get().value(77);
+            w.m[1].c.back().v = 77;
+          }
+          w.check();
+        }
+        return;
+      }
+      for (int q = 0; q < i; ++q)
+      {
+        parent[static_cast<std::size_t>(i)] = q;
+        rec(i + 1);
+      }
+    };
+    rec(1);
   }
 }
 
@@ -1213,6 +1284,7 @@ int main(int argc, char **argv)
     e.run();
   }, 7200);
   vrt::shard("tree_scale", [] { tree_scale(); });
+  vrt::shard("tree_all_shapes", [th] { tree_all_shapes(th ? 8 : 7); });
   vrt::shard("tree_comparison_elements", [] { tree_comparison_elements(); });
   vrt::shard("tree_exceptions", [] { tree_exceptions(); });
   return vrt::run(argc, argv);
